@@ -284,6 +284,12 @@ def cases(ctx):
             for tmpl in ('n%{p}', 'n%{p}==0 ? 0 : 2', 'n%{p}==1 ? 0 : n%{p}==2 ? 2 : 1', '(n%{p})%{n}', 'n%{p}>=1 ? 1 : 3',
                          'n>{p} ? 1 : 0', 'n=={p} ? 1 : 0', 'n<{p} ? 0 : 2', 'n%{p}*2', '2+n%{p}', 'n%{p}/{n}'):
                 out.append((('nplurals=%d; plural=%s;' % (n, tmpl.format(p=p, n=n)), True, [], None), 'period-window'))
+    # offset O < 200 and period P < 200 but O + P >= 200, and a value that first appears beyond the window
+    for O in (101, 150, 190, 195, 198):
+        for P in (2, 10, 50, 100, 150, 199):
+            for r in (0, 1, P - 1):
+                out.append((('nplurals=2; plural=n%%%d==%d && n>%d;' % (P, r, O), True, [], None), 'period-straddles-window'))
+                out.append((('nplurals=3; plural=n%%%d==%d && n > %d ? 2 : n != 1;' % (P, r, O), True, [], None), 'period-straddles-window'))
     # syntax near-misses
     for v in ['', 'nplurals=2', 'nplurals=2;', 'nplurals=2; plural=', 'nplurals=2; plural=;', 'nplurals=0; plural=0;', 'nplurals=02; plural=0;',
               'nplurals=2;plural=n;', 'nplurals=2;\tplural=n', 'nplurals=2;  plural=n;;', 'nplurals=2; plural=n;x', 'Nplurals=2; plural=n;',
